@@ -90,16 +90,18 @@ def _extend_args(args: list[str], flags: list[tuple[str, Any]]) -> list[str]:
 
 def _run_zerv_command(args: list[str], stdin: str | None = None) -> str:
     zerv_bin = find_zerv_bin()
+    # Bytes in, bytes out: text mode would translate a carriage return in the output
+    # (e.g. from a prefix or template) into a newline and decode with the locale's codec.
     result = subprocess.run(
         [zerv_bin, *args],
-        input=stdin,
+        input=stdin.encode("utf-8") if stdin is not None else None,
         capture_output=True,
-        text=True,
         check=False,
     )
     if result.returncode != 0:
-        raise RuntimeError(f"zerv command failed: {result.stderr}")
-    return result.stdout.strip()
+        stderr = result.stderr.decode("utf-8", errors="replace")
+        raise RuntimeError(f"zerv command failed: {stderr}")
+    return result.stdout.decode("utf-8").strip()
 
 
 def version(
